@@ -257,6 +257,8 @@ class Model:
                     return 'unknown', 'ambiguous tail'
                 found = leaves.pop()
         except Cyc:
+            if tail is not None:
+                return 'unknown', 'cycle next to an explicit tail (the real search short-circuits in subscription order)'
             return 'error', 'cyclic'
         except Unknown:
             return 'unknown', 'order dependent equality'
